@@ -192,10 +192,18 @@ where
                             .get_message(&group.mls_group_id, &message_event_id)?
                             .ok_or(Error::Message("Message not found".to_string()))?;
 
+                        // A rollback may have invalidated this message in the meantime (it was
+                        // sent once more on a branch that then lost): it counts again from here
+                        // on, so the group's last-message pointer may have to move back to it.
+                        let was_invalidated =
+                            message.state == message_types::MessageState::EpochInvalidated;
                         message.state = message_types::MessageState::Processed;
                         self.storage().save_message(message).map_err(|_e| {
                             Error::Message("Storage error while saving message".to_string())
                         })?;
+                        if was_invalidated {
+                            self.refresh_last_message_pointer(&group.mls_group_id)?;
+                        }
 
                         processed_message.state = message_types::ProcessedMessageState::Processed;
                         self.storage()
@@ -228,12 +236,17 @@ where
                                 })? {
                                 Some(mut message) => {
                                     // Update states to mark as successfully processed
+                                    let was_invalidated = message.state
+                                        == message_types::MessageState::EpochInvalidated;
                                     message.state = message_types::MessageState::Processed;
                                     self.storage().save_message(message).map_err(|_e| {
                                         Error::Message(
                                             "Storage error while saving message".to_string(),
                                         )
                                     })?;
+                                    if was_invalidated {
+                                        self.refresh_last_message_pointer(&group.mls_group_id)?;
+                                    }
 
                                     processed_message.state =
                                         message_types::ProcessedMessageState::Processed;
